@@ -19,7 +19,40 @@ def data():
     if _DATA is None:
         with open(_PATH) as handle:
             _DATA = json.load(handle)
+        _add_classes_without_seeds(_DATA)
     return _DATA
+
+
+def _add_classes_without_seeds(table):
+    """Leaf parsable classes the repo's tests never parse directly get borrowed inputs (seeds of other classes of
+    the same module, treated as hostile 'bad' inputs) so that their entry points are exercised too."""
+    try:
+        from cryptoparser.common.parse import ParsableBaseNoABC
+    except ImportError:  # pragma: no cover
+        return
+
+    def subclasses(cls):
+        for sub in cls.__subclasses__():
+            yield sub
+            for deeper in subclasses(sub):
+                yield deeper
+
+    by_module = {}
+    for path in sorted(table):
+        module = path.rsplit('.', 1)[0]
+        by_module.setdefault(module, [])
+        for hexdata in table[path].get('ok', [])[:2]:
+            if len(by_module[module]) < 40 and len(hexdata) <= 600:
+                by_module[module].append(hexdata)
+    for cls in sorted(set(subclasses(ParsableBaseNoABC)), key=core.class_path):
+        path = core.class_path(cls)
+        if path in table or not cls.__module__.startswith('cryptoparser.') or cls.__subclasses__():
+            continue
+        if cls.__module__ == 'cryptoparser.common.base' or cls.__name__.endswith('Base'):
+            continue
+        borrowed = by_module.get(cls.__module__, [])
+        if borrowed:
+            table[path] = {'ok': [], 'bad': list(borrowed), 'borrowed': True}
 
 
 def class_paths():
